@@ -84,7 +84,7 @@ PROPERTIES: dict[str, dict] = {
         "assumptions": COMMON_ASSUMPTIONS + ["CTfile V2000 column layout and charge codes (spec.py)"],
     },
     "C09": {
-        "rules": ["R-LEN", "R-WRAP", "R-FIELDS", "R-NUMTEXT", "R-FLOW-SERIAL", "R-FLOW-CANON", "R-ORDERING", "R-INDEXSPACE", "R-GRAPHBUILD", "R-BONDTYPE"],
+        "rules": ["R-LEN", "R-WRAP", "R-FIELDS", "R-NUMTEXT", "R-FLOW-SERIAL", "R-FLOW-CANON", "R-ORDERING", "R-INDEXSPACE", "R-GRAPHBUILD", "R-BONDTYPE", "R-CODEC"],
         "technique": "interval analysis of emitted line lengths + writer/reader constant and field-position agreement",
         "explanation": "Sound interval proof that every appended line is <= 79 characters; wrap prefix / offset / continuation character agree between "
                        "writer and reader; the writer's line templates put fields where the reader subscripts them.",
@@ -102,7 +102,7 @@ PROPERTIES: dict[str, dict] = {
         "assumptions": COMMON_ASSUMPTIONS + ["numbers in TUCAN strings stay below the interpreter's integer-conversion limit"],
     },
     "C11": {
-        "rules": ["R-FLOW-PARSE", "R-BLISS", "R-FLOW-CANON", "R-FLOW-SERIAL", "R-BIJ", "R-KEYS", "R-REBUILD", "R-ATTRREAD", "R-GLOBAL"],
+        "rules": ["R-FLOW-PARSE", "R-BLISS", "R-FLOW-CANON", "R-FLOW-SERIAL", "R-BIJ", "R-KEYS", "R-REBUILD", "R-ATTRREAD", "R-GLOBAL", "R-CODEC"],
         "thorough_rules": ["R-LIBSRC"],
         "technique": "taint analysis of the parser listener composed with the C01 flow proof",
         "explanation": "Spelling (tuple order, orientation, repetition, block order) reaches the parsed graph only as insertion order; the pipeline is "
